@@ -67,6 +67,11 @@ def h_hydrogen(E, n, edges):
             bad.append(NOT(EQ(ex.nodes[v].get(k), g.nodes[v].get(k))))
     for u, v in g.edges:
         bad.append((not ex.has_edge(u, v)) or NOT(EQ(ex[u][v].get("order"), g[u][v].get("order"))))
+    # the new hydrogen atoms are plain hydrogens: neutral, no hydrogens of their own, one single bond
+    for w, d in ex.nodes(data=True):
+        if w not in g.nodes:
+            bad.append(NOT(AND(EQ(d.get("element"), "H"), EQ(d.get("charge", 0), 0), EQ(d.get("hcount", 0), 0))))
+            bad.append(ex.degree(w) != 1 or NOT(EQ(ex[w][next(iter(ex.neighbors(w)))].get("order"), 1)))
     E.check(OR(bad), "explicit-form-has-one-H-node-per-counted-hydrogen", dict(info, explicit_nodes=ex.number_of_nodes()))
     E.check(NOT(EQ(snap(g), before)), "h-to-explicit-modifies-its-input", info)
     im = h_to_implicit(ex)
